@@ -102,7 +102,22 @@ def D17():
     return idx[0] == (0, 0) and idx[-1][1] == doc.measures_count(), str(idx)
 
 
-ALL = ['D1', 'D2', 'D3', 'D4', 'D5', 'D6', 'D8', 'D9', 'D10', 'D11', 'D12', 'D17']
+def D13():
+    d, e = kp.loads('**kern\n*clefF4\n4En\n4E#X\n*-\n')
+    out = kp.dumps(d, encoding=kp.Encoding.agnosticKern)
+    return out == '**akern\n*clefF4\n4ccn\n4cc#X\n*-\n', repr(out)
+
+
+def D19():
+    d, e = kp.loads('**kern\n*clefG2\n4c#\n*-\n')
+    try:
+        out = kp.dumps(d, encoding=kp.Encoding.agnosticKern, exclude=[kp.TokenCategory.PITCH])
+    except Exception as ex:  # noqa
+        return False, repr(ex)
+    return out == '**akern\n*clefG2\n4#\n*-\n', repr(out)
+
+
+ALL = ['D13', 'D19', 'D1', 'D2', 'D3', 'D4', 'D5', 'D6', 'D8', 'D9', 'D10', 'D11', 'D12', 'D17']
 
 if __name__ == '__main__':
     names = sys.argv[1:] or ALL
